@@ -39,7 +39,50 @@ type czCase struct {
 
 type czGen struct{ g *engGen }
 
+// czDirected writes a pattern around one decision of canBeMadeAtomic: a single-character loop (every kind of
+// test, greedy or lazy, minimum 0 or more), possibly at the end of a capture, an alternation branch or a
+// counted group, followed by one to three continuation items (characters, sets, anchors, nullable loops,
+// alternations, groups, lookarounds), with or without more pattern after them.
+func czDirected(rng *rand.Rand) czCase {
+	pick := func(xs []string) string { return xs[rng.Intn(len(xs))] }
+	atoms := []string{"a", "b", `\n`, "-", `\w`, `\d`, `\s`, `\W`, `\D`, `\S`, "[ab]", "[^a]", `[^\n]`, ".", `[\n-]`, "é", "[a-c]", `[\w-]`, "1"}
+	quants := []string{"*", "+", "?", "{1,3}", "*?", "+?", "{0,2}?", "{2,}", "{1,}?", "*", "+"}
+	conts := []string{"a", "b", "c", "-", `\n`, `\w`, `\d`, `\s`, `\W`, `\S`, "[ab]", "[bc]", "[^a]", `\b`, `\B`, "$", `\z`, `\Z`,
+		"b*", "c?", `\s*`, "-*", "a*", `\w*`, "(?:b|c)", "(?:b*|c)", "(?:a|c)", "(b)", "(?>c)", "(?=b)", "(?!b)", "(?=a)", "bc", "ab", "ba",
+		`(?:c\b|$)`, "(?(?=b)b|c)", "(c+)", "(?:-|$)", `\b-`, `\Bx`, `$\n`, "(?:)", "(b*)", "(?>b*)", "(?:b*)+", "(?:cb*)+"}
+	loop := func() string { return pick(atoms) + pick(quants) }
+	var b strings.Builder
+	if rng.Intn(3) == 0 {
+		b.WriteString(pick([]string{"x", "^", `\G`, "(?:x|y)", "c?"}))
+	}
+	switch rng.Intn(8) {
+	case 0:
+		b.WriteString("(x" + loop() + ")")
+	case 1:
+		b.WriteString("(?:x" + loop() + "|y" + loop() + ")")
+	case 2:
+		b.WriteString("(?:" + loop() + pick(conts) + "){2}")
+	case 3:
+		b.WriteString("(?:" + pick([]string{"c", "ca", "b", "-"}) + loop() + ")" + pick([]string{"{2}", "+", "*", "{1,2}", "?"}))
+	case 4:
+		b.WriteString("(?>" + loop() + pick(conts) + ")")
+	default:
+		b.WriteString(loop())
+	}
+	for k := 1 + rng.Intn(3); k > 0; k-- {
+		b.WriteString(pick(conts))
+	}
+	if rng.Intn(3) == 0 {
+		b.WriteString(pick([]string{"x", "a", `\n`, "(?<=a)", "b*"}))
+	}
+	opts := []regexp2.RegexOptions{0, 0, 0, regexp2.Multiline, regexp2.RE2, regexp2.IgnoreCase, regexp2.Singleline, regexp2.Multiline | regexp2.Singleline, regexp2.RE2 | regexp2.Multiline}
+	return czCase{Pattern: strings.ReplaceAll(b.String(), `\\`, `\`), Opts: int32(opts[rng.Intn(len(opts))]), CodeGen: rng.Intn(3) == 0, Seed: rng.Int63(), Source: "directed"}
+}
+
 func (z *czGen) next(rng *rand.Rand, i int) czCase {
+	if rng.Intn(3) == 0 {
+		return czDirected(rng)
+	}
 	z.g.queue = z.g.queue[:0]
 	z.g.fill(rng)
 	q := z.g.queue
@@ -485,7 +528,7 @@ func c05RegisterCert(c *core.Ctx) {
 	z := &czGen{g: &engGen{allowRTL: true, perPat: 8, maxLen: 10, biasRewrite: true}}
 	core.RunLeg(c, core.Leg[czCase]{
 		Name: "Cz", Kind: "correspondence(certifier)+search",
-		Rule: "patterns as leg R (two thirds the shapes the rewrites look for; right-to-left patterns included — the engine does not rewrite them, so their trees must come out equal or differ by certified tail rewrites). Each pattern is parsed with the rewrites off and on; both trees (gen.FromGoTree) go to Lean's cert (Model/AutoAtomic.lean; Props.C05.certified_find: a certified pair has the same find result from every start), with the oracle bits 'disjoint' and 'uniformly word/non-word' computed exactly from the structure of the engine's sets and Go's unicode tables on the boundary points of the tests. Buckets: trees-equal, certified (every difference is a modelled rewrite and is justified), other-rewrite:<code> (a tree difference cert does not model: prefix factoring, atomic-alternation reordering, loop-body sites …; counted, not an alarm), known-finding-KF2 (a loop over non-word runes still pending after passing \\B), not-certified:<reason>. A not-certified pattern starts a search (the pattern's directed inputs, 1500 random strings mostly over its own characters, every start offset) for an input on which the two compilations differ through the naive scan: found → impl-violation, not found → correspondence-break. non-trivial = the trees differ and were sent to Lean",
+		Rule: "one third site-directed patterns (a single-character loop of every kind, greedy/lazy, bare or ending a capture / alternation branch / counted group / atomic group, followed by one to three continuation items drawn from characters, sets, \\b \\B $ \\z \\Z, nullable loops, alternations, groups, lookarounds, conditionals), two thirds patterns as leg R (the shapes the rewrites look for; right-to-left patterns included — the engine does not rewrite them, so their trees must come out equal or differ by certified tail rewrites). Each pattern is parsed with the rewrites off and on; both trees (gen.FromGoTree) go to Lean's cert (Model/AutoAtomic.lean; Props.C05.certified_find: a certified pair has the same find result from every start), with the oracle bits 'disjoint' and 'uniformly word/non-word' computed exactly from the structure of the engine's sets and Go's unicode tables on the boundary points of the tests. Buckets: trees-equal, certified (every difference is a modelled rewrite and is justified), other-rewrite:<code> (a tree difference cert does not model: prefix factoring, atomic-alternation reordering, loop-body sites …; counted, not an alarm), known-finding-KF2 (a loop over non-word runes still pending after passing \\B), not-certified:<reason>. A not-certified pattern starts a search (the pattern's directed inputs, 1500 random strings mostly over its own characters, every start offset) for an input on which the two compilations differ through the naive scan: found → impl-violation, not found → correspondence-break. non-trivial = the trees differ and were sent to Lean",
 		N: c.N(1500, 60000), Corpus: czCorpus, Gen: z.next, Check: czCheck, Batch: 500,
 	})
 }
